@@ -343,7 +343,58 @@ def gen_pipeline():
     return {"preprocess": body, "tokenize_program": "ok"}
 
 
-GENERATORS = [("GenPipeline", gen_pipeline), ("GenTokens", gen_tokens), ("GenLegend", gen_legend), ("GenDecoders", gen_decoders)]
+# ------------------------------------------------------------------------------------------
+# xform_toposort_declarations.rs -> GenTopo.v: which visitor adds which edge, in which direction
+# ------------------------------------------------------------------------------------------
+def gen_topo():
+    src = read("compiler/analyzer/src/xform_toposort_declarations.rs")
+    src = src.split("#[cfg(test)]")[0]
+    m = re.search(r"impl DeclarationsGraph \{(.*?)\n\}\n", src, re.S)
+    if not m:
+        raise Refuse("toposort: impl DeclarationsGraph not found")
+    methods = re.findall(r"\n    fn (\w+)\(", m.group(1))
+    if methods != ["new", "add_node", "sorted_ids"]:
+        raise Refuse("toposort: DeclarationsGraph has methods the model does not know: %r" % methods)
+    if "toposort(&self.graph, None).map_err(" not in m.group(1) or "Problem::RecursiveCycle" not in m.group(1):
+        raise Refuse("toposort: sorted_ids no longer reports RecursiveCycle from petgraph::toposort")
+    addnode = fn_body(m.group(1), r"fn add_node\(&mut self, id: &Id\) -> NodeIndex<u32> \{", "toposort: add_node")
+    sq = " ".join(code_lines(addnode))
+    for frag in ["match self.id_to_index.get(id) {", "Some(existing_index) => *existing_index,", "let new_index = self.graph.add_node(());",
+                 "self.id_to_index.insert(id.clone(), new_index);"]:
+        if frag not in sq:
+            raise Refuse("toposort: add_node no longer has the modelled shape (missing %r)" % frag)
+    if "id_to_index: HashMap<Id, NodeIndex>," not in src:
+        raise Refuse("toposort: id_to_index is no longer keyed by Id (case-insensitive identifier)")
+    vis = re.search(r"impl Visitor<Diagnostic> for RuleGraphReferenceableElements \{(.*)\n\}\n", src, re.S)
+    if not vis:
+        raise Refuse("toposort: visitor impl not found")
+    body = vis.group(1)
+    rows = []
+    parts = re.split(r"\n    fn (visit_\w+)\(", body)
+    # parts: [pre, name1, body1, name2, body2 ...]
+    for i in range(1, len(parts), 2):
+        name, b = parts[i], parts[i + 1]
+        # edges under match arms of InitialValueAssignmentKind are attributed to the arm
+        if name == "visit_initial_value_assignment_kind":
+            arms = re.split(r"InitialValueAssignmentKind::(\w+)\(\w+\) => \{", b)
+            for j in range(1, len(arms), 2):
+                arm, ab = arms[j], arms[j + 1].split("InitialValueAssignmentKind::")[0]
+                for a, c in re.findall(r"graph\s*\.add_edge\((\w+), (\w+), \(\)\)", ab):
+                    rows.append((name + ":" + arm, a, c))
+        else:
+            for a, c in re.findall(r"graph\s*\.add_edge\((\w+), (\w+), \(\)\)", b):
+                rows.append((name, a, c))
+    if src.count("add_edge(") != len(rows):
+        raise Refuse("toposort: an add_edge call was not attributed to a visitor (%d calls, %d rows)" % (src.count("add_edge("), len(rows)))
+    o = ["(* GENERATED by tools/translate.py from compiler/analyzer/src/xform_toposort_declarations.rs -- do not edit *)",
+         "From Coq Require Import List String.", "Import ListNotations.", "Local Open Scope string_scope.", "",
+         "(* (visitor, first argument of add_edge, second argument) in source order *)",
+         "Definition topo_edges : list (string * string * string) :=", "  [" + ";\n   ".join("(%s, %s, %s)" % (coq_string(a), coq_string(b), coq_string(c)) for a, b, c in rows) + "].", ""]
+    write_if_changed("GenTopo.v", "\n".join(o) + "\n")
+    return {"edges": rows}
+
+
+GENERATORS = [("GenPipeline", gen_pipeline), ("GenTopo", gen_topo), ("GenTokens", gen_tokens), ("GenLegend", gen_legend), ("GenDecoders", gen_decoders)]
 
 
 def main():
